@@ -26,6 +26,7 @@ RULE = (
     "HTTP/3 exchanges with header values that are not UTF-8; plus pairs (off, on) of whole HTTP/3 conversations between two real "
     "H3Connections (requests, responses, trailers, server push, WebTransport, datagrams, QPACK-blocked HEADERS and PUSH_PROMISE resumed "
     "by late encoder-stream data, reordering and loss) whose per-stream outcome, termination state and escaping exceptions must agree; "
+    "plus pairs against a peer advertising transport parameters aioquic never sends itself (preferred_address, unknown / GREASE ids); "
     "os.urandom is seeded so the runs of a case see the same packet boundaries. "
     "non-trivial = the self-check passed and the logged run recorded at least 5 qlog packet events; distinct = hash(scenario kind, "
     "config, op multiset, fate multiset)."
@@ -51,6 +52,8 @@ def plan(tier, seed):
     nh = 12 if tier == "quick" else 200
     for i in range(nh):
         out.insert(i * 3, {"gen": "h3", "seed": base + 900000 + i, "cases": 40})
+    for i in range(4 if tier == "quick" else 60):
+        out.insert(i * 7 + 2, {"gen": "tp", "seed": base + 700000 + i, "cases": 25})
     nr = 16 if tier == "quick" else 400
     for i in range(nr):
         out.insert(i * 3 + 1, {"gen": "h3rt", "seed": base + 800000 + i, "cases": 6})
@@ -446,10 +449,118 @@ def h3rt(batch, res):
     res.sample({"gen": "h3rt", "seed": batch["seed"], "cases": batch["cases"]}, limit=1)
 
 
+def tp(batch, res):
+    """Handshake + short exchange + close against a peer that advertises transport parameters aioquic itself never
+    sends (preferred_address with raw connection ID / reset token bytes, unknown and GREASE parameter ids, maximal
+    integer values): what the client reports and how it ends must not depend on the qlog logger, logging must not
+    raise, and the qlog document must be strict JSON."""
+    from aioquic.buffer import Buffer
+    from aioquic.quic.connection import QuicConnection
+    from aioquic.quic.logger import QuicLogger
+    from aioquic.quic.packet import QuicPreferredAddress, pull_quic_transport_parameters, push_quic_transport_parameters
+
+    from .. import frames as F
+    from .. import puppet
+    from ..common import exc_signature
+
+    rng = random.Random("c20tp/%s" % batch["seed"])
+    orig = QuicConnection._serialize_transport_parameters
+    for ci in range(batch["cases"]):
+        variant = rng.choice(["preferred-v4", "preferred-v6", "preferred-both", "unknown-ids", "all", "all"])
+        who = rng.choice(["server", "server", "client-unknown-only"])
+        pa = QuicPreferredAddress(
+            ipv4_address=("1.2.3.4", 4433) if variant in ("preferred-v4", "preferred-both", "all") else None,
+            ipv6_address=("2001:db8::1", 4433) if variant in ("preferred-v6", "preferred-both", "all") else None,
+            connection_id=rng.randbytes(rng.choice([0, 4, 8, 20])),
+            stateless_reset_token=rng.randbytes(16),
+        )
+        extra = b""
+        if variant in ("unknown-ids", "all"):
+            for _ in range(rng.choice([1, 3])):
+                pid = rng.choice([31 * rng.randrange(1, 100) + 27, 0x7F00 + rng.randrange(256), 0x3FFFFFFFFFFFFF00 + rng.randrange(256)])
+                val = rng.randbytes(rng.choice([0, 1, 8, 40]))
+                extra += F.enc_varint(pid) + F.enc_varint(len(val)) + val
+
+        def patched(self, _pa=pa, _extra=extra, _who=who):
+            data = orig(self)
+            if self._is_client != (_who != "server"):
+                return data
+            if _who == "server" and variant != "unknown-ids":
+                params = pull_quic_transport_parameters(Buffer(data=data))
+                params.preferred_address = _pa
+                buf = Buffer(capacity=3 * len(data) + 512)
+                push_quic_transport_parameters(buf, params)
+                data = buf.data
+            return data + _extra
+
+        results = []
+        for logging_on in (False, True):
+            logger = QuicLogger() if logging_on else None
+            QuicConnection._serialize_transport_parameters = patched
+            raised = None
+            evs = []
+            try:
+                pair = puppet.HandshakePair({"alpn": ["vf"]})
+                if logging_on:
+                    pair.ccfg.quic_logger = logger
+                    pair.scfg.quic_logger = logger
+                    pair.client = QuicConnection(configuration=pair.ccfg)
+                try:
+                    pair.complete()
+                    pair.client.send_stream_data(0, b"x" * 300, end_stream=True)
+                    pair.roundtrips(2)
+                    pair.client.close(error_code=0, reason_phrase="done")
+                    pair.roundtrips(2)
+                    for _ in range(6):
+                        for conn in (pair.client, pair.server):
+                            t = conn.get_timer()
+                            if t is not None:
+                                pair.now = max(pair.now, t)
+                                conn.handle_timer(now=pair.now)
+                        pair.roundtrips(1)
+                except RuntimeError as exc:  # handshake did not complete: an outcome to compare, not an error of the harness
+                    evs.append(("handshake-incomplete", str(exc)[:40]))
+                except Exception as exc:
+                    raised = exc_signature(exc)
+                for name in ("client", "server"):
+                    evs.append((name, [(type(e).__name__, getattr(e, "error_code", None), len(getattr(e, "data", b"") or b"")) for e in pair.events[name]],
+                                (pair.client if name == "client" else pair.server)._state.name if (name == "client" or pair.server is not None) else None))
+            finally:
+                QuicConnection._serialize_transport_parameters = orig
+            doc_ok = None
+            if logging_on and raised is None:
+                try:
+                    json.dumps(logger.to_dict(), allow_nan=False)
+                    doc_ok = True
+                except Exception as exc:
+                    doc_ok = repr(exc)[:200]
+            results.append((evs, raised, doc_ok))
+        res.evaluations += 1
+        res.count("tp_pairs_compared")
+        res.count("tp_variant_" + variant)
+        case = {"gen": "tp", "seed": batch["seed"], "cases": ci + 1}
+        (e0, r0, _), (e1, r1, d1) = results
+        if r1 is not None and r0 is None:
+            res.violation("tp:logging-only-exception:" + r1, "connection API raised only with the qlog logger on (peer transport parameters: %s by %s)" % (variant, who), case, None)
+            break
+        if r0 is None and e0 != e1:
+            res.violation("tp:events-differ-with-logging", "events / final state differ with logging on (peer transport parameters: %s by %s): off=%r on=%r" % (variant, who, str(e0)[:200], str(e1)[:200]), case, None)
+            break
+        if d1 not in (None, True):
+            res.violation("tp:qlog-not-serialisable", "qlog document is not JSON serialisable after a peer advertised %s (%s): %s" % (variant, who, d1), case, None)
+            break
+        if d1 is True:
+            res.count("qlog_documents_checked")
+        res.nontrivial.add(h("tp", variant, who, len(pa.connection_id), len(extra) > 0))
+    res.sample({"gen": "tp", "seed": batch["seed"], "cases": batch["cases"]}, limit=1)
+
+
 def run_batch(batch):
     res = Result()
     t0 = time.time()
-    if batch["gen"] == "triple":
+    if batch["gen"] == "tp":
+        tp(batch, res)
+    elif batch["gen"] == "triple":
         triple(batch, res)
     elif batch["gen"] == "h3rt":
         h3rt(batch, res)
